@@ -125,7 +125,9 @@ func runC14(c *core.Ctx) {
 		cs.Eval(1 << 12)
 		cs.DistinctN(1 << 12)
 		if cs.Idx == 0x6A1 {
-			cs.Sample("decode", func() any { return map[string]any{"wire_17_19": "1a 20 df (exp 6, mantissa 139487)", "bitrate": 8927168} })
+			cs.Sample("decode", func() any {
+				return map[string]any{"wire_17_19": "1a 20 df (exp 6, mantissa 139487)", "bitrate": 8927168}
+			})
 		}
 	})
 	// (2) encode
@@ -161,7 +163,7 @@ func runC14(c *core.Ctx) {
 		// dense neighbourhoods
 		var centres []uint32
 		for E := -2; E <= 128-1; E++ {
-			centres = append(centres, uint32(E+127)<<23)           // 2^E
+			centres = append(centres, uint32(E+127)<<23)          // 2^E
 			centres = append(centres, uint32(E+127)<<23|0x7FFFC0) // top mantissa 0x3FFFF.. carry boundary
 			centres = append(centres, uint32(E+127)<<23|0x400000)
 		}
